@@ -4,6 +4,7 @@ from petl.errors import DuplicateKeyError
 from hypothesis import strategies as st
 
 from pv import gen, codec
+from pv import scale
 from pv.probes import BOOM_KINDS
 from pv.core import Sub, Fail, exc_fail
 from pv.ref import base as R, joins as RJ
@@ -102,6 +103,16 @@ def _ref_rightorder(L, Rt, kw):
 
 
 def check_hj(case, ctx):
+    if case.get("blowup") is None and "blowup" not in case:
+        case = dict(case, blowup=scale.derive(case, odds=25, sizes=[130, 300, 1030, 2100], wide=False))
+    if case.get("blowup"):
+        # at scale: one side blown up (chosen from the digest as well), the other kept to a few rows
+        b = case["blowup"]
+        side = b["rows"] % 2
+        big = scale.apply(case["left" if side == 0 else "right"], b)
+        small = [list(r) for r in case["right" if side == 0 else "left"][:5]]
+        case = dict(case, left=big if side == 0 else small, right=small if side == 0 else big)
+        scale.label(ctx, b)
     fn, L, Rt = case["fn"], case["left"], case["right"]
     mfn, kind = PAIRS[fn]
     kw = {k: case[k] for k in ("key", "lkey", "rkey", "missing", "lprefix", "rprefix", "cache") if k in case}
@@ -225,6 +236,11 @@ class _PlainMapping(object):
 
 
 def check_lk(case, ctx):
+    if "blowup" not in case:
+        case = dict(case, blowup=scale.derive(case, odds=25, sizes=[130, 300, 1030, 2100], wide=False))
+    if case.get("blowup"):
+        case = dict(case, table=scale.apply(case["table"], case["blowup"]))
+        scale.label(ctx, case["blowup"])
     fn, tbl, key = case["fn"], case["table"], case["key"]
     hdr = tbl[0]
     ki = R.resolve(hdr, key)
